@@ -222,6 +222,11 @@ def _cases(tier, seed):
 
 
 FIXED = [
+    # two roots; the second one re-exports a class of its private module, the first one imports it from where it is defined
+    ({'alpha/__init__.py': '', 'alpha/use.py': 'from beta._core import Wheel\nfrom beta._core import Wheel as W2\nimport beta._core as core\nclass Car:\n    from beta._core import Wheel as Inner\n    class Nest: pass\n',
+      'beta/__init__.py': 'from beta._core import Wheel\n__all__ = ["Wheel"]\n', 'beta/_core.py': 'class Wheel:\n    def spin(self): pass\ndef unrelated(): pass\n',
+      'gamma.py': 'from beta._core import Wheel as GW\nimport beta\n'},
+     ['alpha', 'beta._core', 'beta', 'alpha.use', 'gamma']),
     ({'a/__init__.py': 'class A0: pass\n', 'a/b/__init__.py': 'from .. import A0 as Up\nfrom ..c import C1\nfrom . import d\nfrom .d import D1 as Dx\n',
       'a/b/d.py': 'class D1:\n    class Nest: pass\n', 'a/c.py': 'class C1: pass\n',
       'a/e.py': 'import a.b.d\nimport a.b.d as dmod\nfrom a.b import d as d2\nfrom a import c\nclass E1(a.b.d.D1, dmod.D1.Nest, c.C1): pass\n'},
